@@ -356,7 +356,7 @@ def gxx_classify(msg: str, feat: set) -> Tuple[str, str]:
     m = re.search(r"(?:redeclaration of|conflicting declaration|redefinition of) [‘'](?:.*?)(\w+)[’']", msg)
     if m:
         return _key_for("unique_decls", m.group(1), feat), "unique_decls"
-    if "‘else’ without a previous ‘if’" in msg or "'else' without a previous 'if'" in msg:
+    if re.search(r"[‘']else[’'] without a previous [‘']if[’']|before [‘']else[’']", msg):
         return (_key_for("else", "", feat) if "agg_summand_outer_only" in feat else "c02:else-without-if"), "else"
     return "c02:gxx:" + re.sub(r"[‘’'\d]+", "", msg)[:50].strip().replace(" ", "-"), "other"
 
@@ -400,7 +400,7 @@ def run_gxx(work: Path, batches: List[Tuple[str, qgen.Universe, List[Tuple[int, 
 # check
 # ------------------------------------------------------------------------------------------------
 def _cases(tier: str, rng: random.Random):
-    n_gen = 110 if tier == "quick" else 1500
+    n_gen = 150 if tier == "quick" else 4000
     n_mod = 12 if tier == "quick" else 120
     n_out = 12 if tier == "quick" else 120
     depths = [1, 2, 3, 3] if tier == "quick" else [2, 3, 3, 4, 5]
@@ -478,7 +478,10 @@ def check(tier: str, seed: int, t0: float, build: core.BuildStatus) -> int:
             continue
         msgs = gxx[i]
         kinds = set()
-        for msg in msgs:
+        # once the block structure is broken (an else that follows no if) g++'s later messages are cascades of
+        # the first one: only the first is classified (all are kept in the replay)
+        primary = msgs[:1] if r.status == "unparsed" else msgs
+        for msg in primary:
             key, kind = gxx_classify(msg, r.feat)
             kinds.add(kind)
             if not any(k == key for k, _ in r.findings):
@@ -495,7 +498,7 @@ def check(tier: str, seed: int, t0: float, build: core.BuildStatus) -> int:
                 key=key, what=f"[{r.backend}] {what} - query {r.src[:160]}",
                 replay={"kind": "query", "backend": r.backend, "query": r.src, "features": sorted(r.feat),
                         "metadata": "qgen.Universe(backend).metadata()", "finding": what, "checker_errors": r.checker,
-                        "status": r.status, "note": r.note,
+                        "status": r.status, "note": r.note, "gxx_messages": gxx.get(results.index(r)) if gxx else None,
                         "emitted_query_code": _norm(r.raw["query_code"]) if r.raw else None,
                         "emitted_class_decl": _norm(r.raw["class_decl"]) if r.raw else None,
                         "emitted_book_code": _norm(r.raw["book_code"]) if r.raw else None,
@@ -572,8 +575,15 @@ def replay(path: str, build: core.BuildStatus) -> int:
                 r.findings.append((k, "g++ rejects the emitted code: " + m))
     for k, w in r.findings:
         print("finding:", k, "-", w)
-    if any(k == data.get("key") for k, _ in r.findings) or (r.findings and data.get("key") not in [k for k, _ in r.findings]):
+    known = {k["key"] for k in core.known_findings() if k.get("property") == PID and k.get("status") == "known"}
+    keys = [k for k, _ in r.findings]
+    if data.get("key") in keys:
         print(f"VIOLATION property={PID} replay={path}")
         return 1
-    print("property holds on this input")
+    other = [k for k in keys if k not in known]
+    if other:
+        print(f"the stored finding {data.get('key')} no longer reproduces, but the input still violates the property: {other}")
+        print(f"VIOLATION property={PID} replay={path}")
+        return 1
+    print("the stored finding no longer reproduces" + (f" (only known findings remain: {sorted(set(keys))})" if keys else "; property holds on this input"))
     return 0
